@@ -73,6 +73,78 @@ theorem findHybrids_un_exact {clusters : List Proto} {wrap : Option Int} {hg : L
         · exact absurd hpg (hno g hg)
         · exact hun
 
+theorem findCross_linear (cc : List CandC) (un : List Proto) (groups : List (List Proto))
+    (hno : ∀ x, x ∈ cc → twoParts x.2 = false) :
+    findCrossOriginInterleaved cc un groups none = .ok ([], groups) := by
+  unfold findCrossOriginInterleaved
+  split
+  · rfl
+  · have : (cc.any fun c => twoParts c.2) = false := by
+      rw [List.any_eq_false]; intro x hxc; simp [hno x hxc]
+    rw [if_pos (by simp [this])]
+
+theorem mem_findInterleavedCandidates {cc : List CandC} {g : List Proto} (h : g ∈ findInterleavedCandidates cc) :
+    ∃ a b, a ∈ cc ∧ b ∈ cc ∧ ∀ x, x ∈ g → x ∈ a.1.members ∨ x ∈ b.1.members := by
+  simp only [findInterleavedCandidates, List.mem_append] at h
+  rcases h with h | h
+  · obtain ⟨a, b, hbf, _, e⟩ := (mem_pairsWhere _ _ _ _).1 h
+    subst e
+    exact ⟨a, b, (before_mem hbf).1, (before_mem hbf).2, fun x hx => List.mem_append.1 (mem_dedup.1 hx)⟩
+  · split at h
+    · split at h
+      · rename_i a b ha hb
+        split at h
+        · have e : g = dedup (a.1.members ++ b.1.members) := by simpa using h
+          subst e
+          exact ⟨a, b, List.mem_of_head? ha, List.mem_of_getLast? hb, fun x hx => List.mem_append.1 (mem_dedup.1 hx)⟩
+        · cases h
+      · cases h
+    · cases h
+
+theorem findInterleaved_un_linear {clusters : List Proto} {cands : List Cand} {ig : List (List Proto)} {un : List Proto}
+    (h : findInterleaved clusters cands none = .ok (ig, un))
+    (hdisj : ∀ p, p ∈ clusters → ∀ c, c ∈ cands → p ∉ c.members) :
+    ∀ p, p ∈ un → ∀ g, g ∈ ig → p ∉ g := by
+  unfold findInterleaved at h
+  dsimp only at h
+  split at h
+  · cases h
+  · rename_i cc hcc
+    have hccfst : ∀ x, x ∈ cc → x.1 ∈ cands := by
+      split at hcc
+      · exact withCores_fst hcc
+      · injection hcc with hcc; subst hcc; intro x hx; cases hx
+    have hno : ∀ x, x ∈ cc → twoParts x.2 = false := by
+      split at hcc
+      · exact withCores_none_simple hcc
+      · injection hcc with hcc; subst hcc; intro x hx; cases hx
+    rw [findCross_linear cc _ _ hno] at h
+    dsimp only at h
+    injection h with h; injection h with h1 h2; subst h1; subst h2
+    intro p hp g hg hpg
+    have hp' := mem_sortProtos.1 hp
+    simp only [List.mem_filter, Bool.not_eq_true', List.contains_eq_mem, decide_eq_false_iff_not, List.append_nil,
+      List.mem_append, not_or] at hp'
+    obtain ⟨hpc, hn2, hn3⟩ := hp'
+    obtain ⟨g0, hg0, hp0⟩ := mergeSets_from hg p hpg
+    rcases List.mem_append.1 hg0 with h12 | h3
+    · rcases List.mem_append.1 h12 with h1 | h2
+      · obtain ⟨a, b, ha, hb, hsub⟩ := mem_findInterleavedCandidates h1
+        rcases hsub p hp0 with hx | hx
+        · exact hdisj p hpc a.1 (hccfst a ha) hx
+        · exact hdisj p hpc b.1 (hccfst b hb) hx
+      · exact hn2 (List.mem_flatten.2 ⟨g0, h2, hp0⟩)
+    · obtain ⟨cl, hcl, hg3⟩ := List.mem_flatMap.1 h3
+      obtain ⟨c, hcf, e⟩ := List.mem_map.1 hg3
+      subst e
+      obtain ⟨hcin, ho⟩ := List.mem_filter.1 hcf
+      rcases List.mem_append.1 (mem_dedup.1 hp0) with hx | hx
+      · exact hdisj p hpc c.1 (hccfst c hcin) hx
+      · have : p = cl := by simpa using hx
+        subst this
+        apply hn3
+        exact ⟨hcl, List.any_eq_true.2 ⟨c, hcin, ho⟩⟩
+
 /-- The documented outcome on a linear record, stage by stage.  Every clause is stated with the
     notions the executable reference is made of: chain classes (`Linked`) of `shareGroups` /
     `overlapGroups`, containment in the connected core, the order-free table semantics `PassDesc`
@@ -92,7 +164,7 @@ structure RefinesLinear (ps : List Proto) (cs : List Cand) : Prop where
     -- interleaved: chain classes of "cores overlap" over hybrid candidates and unabsorbed protoclusters
     withCores none (sortCands t1.values) = .ok cc ∧
     (∀ a b, (∃ r, r ∈ ig ∧ a ∈ r ∧ b ∈ r) ↔ Linked (overlapGroups (interleaveUnits un1 cc)) a b) ∧
-    (∀ p, p ∈ un1 → (∃ g, g ∈ ig ∧ p ∈ g) ∨ p ∈ un2) ∧ (∀ p, p ∈ un2 → p ∈ un1) ∧
+    (∀ p, p ∈ un2 ↔ p ∈ un1 ∧ ∀ g, g ∈ ig → p ∉ g) ∧
     PassDesc none .interleaved t1 t2 ig ∧
     -- neighbouring: chain classes of "extents overlap" over all candidates so far and the remaining protoclusters
     (∀ a b, (∃ r, r ∈ ng ∧ a ∈ r ∧ b ∈ r) ↔ Linked (overlapGroups (neighbourUnits un2 (sortCands t2.values))) a b) ∧
@@ -160,19 +232,25 @@ theorem formation_refines_linear {ps : List Proto} {cs : List Cand} (hn : ps.Nod
   refine ⟨hg, un1, t1, cc, ig, un2, t2, findNeighbouring un2 (sortCands t2.values), t3,
     sortProtos (dedup (un2 ++ t3.singles)), singles,
     findHybrids_complete_linear hH hun0 hvc, (findHybrids_classes hH hun0).1, ?_, d1,
-    hcc, hinter, ?_, hI3, d2, fun a b => findNeighbouring_classes un2 (sortCands t2.values) a b, d3, ?_, ?_, ?_, ?_⟩
+    hcc, hinter, ?_, d2, fun a b => findNeighbouring_classes un2 (sortCands t2.values) a b, d3, ?_, ?_, ?_, ?_⟩
   · intro p
     rw [findHybrids_un_exact hH p, mem_sortProtos]
-  · intro p hp
-    rcases findInterleaved_cover hI p hp with h1 | h1 | ⟨c, hc, hpc⟩
-    · exact Or.inl h1
-    · exact Or.inr h1
-    · -- the members of the hybrid candidates are the members of the hybrid groups, which `un1` avoids
-      exfalso
+  · -- the members of the hybrid candidates are the members of the hybrid groups, which `un1` avoids
+    have hdisj : ∀ p, p ∈ un1 → ∀ c, c ∈ sortCands t1.values → p ∉ c.members := by
+      intro p hp c hc hpc
       obtain ⟨k, hk⟩ := mem_values.1 (mem_sortCands.1 hc)
       rcases (d1.members k p).1 ⟨c, hk, hpc⟩ with ⟨c0, hc0, _⟩ | ⟨g, hg', _, hpg⟩
       · cases hc0
       · exact ((findHybrids_un_exact hH p).1 hp).2 g hg' hpg
+    intro p
+    constructor
+    · intro hp
+      exact ⟨hI3 p hp, findInterleaved_un_linear hI hdisj p hp⟩
+    · rintro ⟨hp, hno⟩
+      rcases findInterleaved_cover hI p hp with ⟨g, hg', hpg⟩ | h1 | ⟨c, hc, hpc⟩
+      · exact absurd hpg (hno g hg')
+      · exact h1
+      · exact absurd hpc (hdisj p hp c hc)
   · intro p
     rw [mem_sortProtos, mem_dedup, List.mem_append]
   · intro c hc
